@@ -439,9 +439,11 @@ def run_workers(pid, names, tier, jobs, wall_limit, quick_ms=None, log=print, ro
     return results
 
 
-def escalate(results, timeout_s, jobs, log=print):
-    """portfolio pass over the obligations the quick in-process pass left undecided"""
+def escalate(results, timeout_s, jobs, log=print, total_s=None):
+    """portfolio pass over the obligations the quick in-process pass left undecided. total_s: wall budget of the whole pass;
+    obligations not reached within it stay unknown (reported as undecided)"""
     import concurrent.futures as cf
+    deadline = None if total_s is None else time.time() + total_s
     todo = []
     for n, r in results.items():
         for rec in r['records']:
@@ -453,6 +455,9 @@ def escalate(results, timeout_s, jobs, log=print):
     per = 2
 
     def one(rec):
+        if deadline is not None and time.time() > deadline:
+            rec['by'] = 'portfolio (not reached within the escalation budget)'
+            return rec
         st, env, by, dt, detail = solve.portfolio(rec['smt2'], timeout_s, rec.get('vars'), workdir=workdir)
         rec['status'] = st
         rec['by'] = by or 'portfolio'
